@@ -323,6 +323,8 @@ def run(ctx):
             ctx.count('cases')
         long_inputs(ctx, st, lc, P, rng)
         ymd_shapes(ctx, st, lc, P, rng)
+        if ctx.shard == 0:
+            failing_then_ordinary(ctx, st, lc, P)
         non_text(ctx, st, P)
         entry_points(ctx, st, P, PP)
         ctx.note('lines_counted_total', lc.n)
@@ -498,6 +500,19 @@ def option_cost_relation(ctx, P):
         ctx.violation('not-prompt', {'workload': 'option-cost', 'text': "'x99' * 20000 + 'x 10:30 on 3 May 2020'", 'options': ['fuzzy_with_tokens']},
                       'fuzzy_with_tokens needed %.2f s of CPU time where fuzzy needed %.2f s on the same text (best of 3)' % (best[1], best[0]))
     ctx.note('option_cost_cpu_seconds', {'fuzzy': round(best[0], 3), 'fuzzy_with_tokens': round(best[1], 3)})
+
+
+def failing_then_ordinary(ctx, st, lc, P):
+    """a call that fails in each documented way, followed by ordinary calls that exercise the same machinery (zone
+    factories, decimal context, tokenizer): the failure must leave nothing behind"""
+    failing = ['10:00 +99999999999:00', '10:00 -99999999999', '99999999999999999999', '1' * 400, '10:00 UTC+999999999999', '32/13/2000 +0300',
+               '2003-09-25 10:00:00.' + '9' * 300 + ' -0300', 'Sep 25 2003 10:00 EST+99999999999', '']
+    ordinary = ['2003-09-25 10:00 +03:00', 'Thu, 25 Sep 2003 10:49:41 -0300', '2003-09-25T10:49:41.5-03:30', '10:00 UTC+3', 'Sep 25 2003 10:00 BRST-3']
+    for bad in failing:
+        for good in ordinary:
+            for kw in ({}, {'fuzzy': True}):
+                one_case(ctx, st, lc, P, good, ['directed-after-failure'], 'str', dict(kw), None, ['directed'], other=(bad, {}))
+                ctx.count('failing_then_ordinary')
 
 
 def non_text(ctx, st, P):
